@@ -17,7 +17,7 @@ from mc.report import add_sample, add_violation, count, new_part
 LEVEL = "exploration"
 RULE = ("histories of 1..3 segments over 7 segment bodies (template in rot_X/Y/Z numerators with denominators 0/1/4, one and two "
         "templates, measurement into new future / register / existing array slot, rotation of a persistent qubit) x closing mode "
-        "per segment {flush, compile+instantiate+commit} (at least one pre-compiled) x template values {0,1,8,16,31,255} x "
+        "per segment {flush, compile+instantiate+commit, compile now and commit later in order} (at least one pre-compiled) x template values {0,1,8,16,31,255} x "
         "{no transpiler, NV transpiler} x all measurement-outcome scripts; oracle: identical observations to the literal+flush "
         "history after every segment and after the closing flush; distinct = distinct (history, modes, value, compiler, "
         "outcomes); all non-trivial")
@@ -108,18 +108,33 @@ def run_history(history, modes, value, nv: bool, templated: bool, chooser) -> Li
         env["A0"] = conn.new_array(2, init_values=[5, 6])
         env["P"] = Qubit(conn)
         conn.flush()
+        late: List[Any] = []      # compiled but not yet committed subroutines (committed in order at the next sync point)
+
+        def commit_late():
+            while late:
+                sub = late.pop(0)
+                sub.instantiate(conn.app_id, {"t": value, "u": (value * 3 + 1) % 256})
+                conn.commit_subroutine(sub)
+
         for si, (body, mode) in enumerate(zip(history, modes)):
             env["segment"] = si
-            if templated and mode == "precompile":
+            if templated and mode in ("precompile", "precompile-late"):
                 build_body(body, env, lambda n: Template(n))
                 sub = conn.compile()
                 if sub is not None:
-                    sub.instantiate(conn.app_id, {"t": value, "u": (value * 3 + 1) % 256})
-                    conn.commit_subroutine(sub)
+                    if mode == "precompile-late":
+                        late.append(sub)
+                    else:
+                        commit_late()
+                        sub.instantiate(conn.app_id, {"t": value, "u": (value * 3 + 1) % 256})
+                        conn.commit_subroutine(sub)
             else:
+                commit_late()
                 build_body(body, env, lambda n: value if n == "t" else (value * 3 + 1) % 256)
                 conn.flush()
-            obs.append(observe(env))
+            # observations are comparable only when everything built so far has been executed
+            obs.append(observe(env) if not late else None)
+        commit_late()
         env["segment"] = len(history)
         conn.flush()          # the closing flush of conn.close(), observed before the application is stopped
         o = observe(env)
@@ -146,11 +161,13 @@ def check_history(history, modes, value, nv, part) -> None:
         script = choices.Script(outcomes) if outcomes is not None else choices.Chooser(chosen)
         obs_l = run_history(history, ["flush"] * len(history), value, nv, False, script)
         c = dict(case, choices=chosen)
-        if obs_t == obs_l:
+        if all(a is None or a == b for a, b in zip(obs_t, obs_l)) and len(obs_t) == len(obs_l):
             count(part, "agree")
             continue
         # locate the first difference
         for si, (a, b) in enumerate(zip(obs_t, obs_l)):
+            if a is None:
+                continue
             if a != b:
                 where = f"segment {si}" if si < len(history) else "closing flush"
                 if isinstance(a, str) or isinstance(b, str):
@@ -195,14 +212,16 @@ def histories(tier: str):
     for n in lens:
         bodies = BODIES if n < 3 else BODIES[:5]
         for hist in itertools.product(bodies, repeat=n):
-            for modes in itertools.product(("flush", "precompile"), repeat=n):
-                if "precompile" not in modes:
+            for modes in itertools.product(("flush", "precompile", "precompile-late"), repeat=n):
+                if all(m == "flush" for m in modes):
                     continue
                 yield list(hist), list(modes)
     if tier == "quick":
         # a few length-3 histories (array created early, pre-compiled middle, flushed end)
         for hist in (("rx_new", "ry_slot", "lit_new"), ("ry_slot", "rz_reg", "rx_new"), ("p_rot", "two_tpl", "ry_slot")):
-            for modes in (("precompile", "flush", "flush"), ("flush", "precompile", "flush"), ("precompile", "precompile", "precompile")):
+            for modes in (("precompile", "flush", "flush"), ("flush", "precompile", "flush"), ("precompile", "precompile", "precompile"),
+                          ("precompile-late", "precompile-late", "flush"), ("precompile-late", "flush", "precompile-late"),
+                          ("precompile-late", "precompile-late", "precompile-late")):
                 yield list(hist), list(modes)
 
 
@@ -212,6 +231,7 @@ def run(ctx):
     for b in BODIES:
         ctx.require(f"body/{b}", 1)
     ctx.require("mode/precompile", 10)
+    ctx.require("mode/precompile-late", 10)
     ctx.require("mode/flush", 10)
     ctx.require("agree", 100)
 
